@@ -414,6 +414,12 @@ func (c *Cluster) serve(broker int32, cid int, addr string, conn net.Conn) {
 		if res == nil {
 			continue
 		}
+		if body := rawResponse(ver, res); body != nil { // offset APIs: encoded by hand from the protocol guide
+			if err := writeRawResponse(conn, corr, body); err != nil {
+				return
+			}
+			continue
+		}
 		if err := protocol.WriteResponse(conn, ver, corr, res); err != nil {
 			return
 		}
@@ -608,6 +614,9 @@ func (c *Cluster) handle(broker int32, ver int16, msg protocol.Message) protocol
 				rt.Partitions = append(rt.Partitions, rp)
 			}
 			res.Topics = append(res.Topics, rt)
+		}
+		if ver >= 2 && res.ErrorCode != 0 { // like Kafka: from v2 on a group-level failure is the top-level code, no partitions
+			res.Topics = nil
 		}
 		return res
 
